@@ -377,6 +377,8 @@ def _call(c: ast.Call, ev, t: str):
         a, b = _as_exact(ev(c.args[0])), _as_exact(ev(c.args[1]))
         if _is_arr(a) and (_is_arr(b)):
             return np.where(a < b, a, b) if "min" in name else np.where(a > b, a, b)
+        if not _is_arr(a) and not _is_arr(b) and all(isinstance(v_, (int, Fraction)) and not isinstance(v_, bool) for v_ in (a, b)):
+            return (min if "min" in name else max)(a, b)  # two 0-dimensional tensors
         raise NotEvaluable("min / max with a dimension")
     if name in ("torch.clamp_min", "torch.clamp_max") and len(c.args) == 2:
         a, v = _as_exact(ev(c.args[0])), ev(c.args[1])
